@@ -517,6 +517,34 @@ def read_deallocs(src, funcs):
     return rows
 
 
+def read_call_notifiers(src, funcs):
+    """Which list the dispatch loop of call_notifiers reads, and where that list comes from."""
+    byname = dict((n, (a, b)) for n, a, b in reversed(funcs))
+    if "call_notifiers" not in byname:
+        raise Shape("call_notifiers not found")
+    a, b = byname["call_notifiers"]
+    body = src[a:b]
+    sources = []
+    for m in re.finditer(r"\ball_notifiers\s*=(?!=)\s*([^;]+);", body):
+        rhs = re.sub(r"^\(\s*\w+\s*\*?\s*\)\s*", "", " ".join(m.group(1).split()))
+        mc = re.match(r"^(\w+)\s*\(", rhs)
+        sources.append(mc.group(1) if mc else rhs[:60])
+    reads = []
+    for m in re.finditer(r"PyObject_Call\w*\s*\(", body):
+        e = matching(body, m.end() - 1, "(", ")")
+        arg = " ".join(body[m.end():e].split())
+        mg = re.match(r"^PyList_GET_ITEM\s*\(\s*(\w+)\s*,", arg)
+        if mg:
+            reads.append(mg.group(1))
+        elif not arg.startswith("PyList_GET_ITEM"):
+            reads.append("<" + arg.split(",")[0][:40] + ">")
+        else:
+            raise Shape("call_notifiers: unknown callable expression %r" % arg[:60])
+    if not sources or not reads:
+        raise Shape("call_notifiers: loop shape not recognised")
+    return sources, reads
+
+
 def read_complex_cases(src, funcs, consts):
     for n, a, b in funcs:
         if n == "validate_trait_complex":
@@ -560,6 +588,7 @@ def emit(traits_dir):
     st_size, st_slots, st_fmt, st_args = read_state_layout(src, funcs)
     stolen = read_stolen_references(src, funcs)
     deallocs = read_deallocs(src, funcs)
+    cn_sources, cn_reads = read_call_notifiers(src, funcs)
 
     L = ["/- GENERATED by harness/translate/ctables.py from traits/ctraits.c of the working tree - do not edit. -/",
          "namespace TraitsVerif.Generated.CTables", ""]
@@ -635,6 +664,11 @@ def emit(traits_dir):
     L.append("def deallocFirstStatement : List (String × String) := [")
     L.append(",\n".join("  (%s, %s)" % (q(a), q(b.replace('"', "'"))) for a, b in deallocs))
     L.append("]")
+    L.append("")
+    L.append("/-- `call_notifiers`: the function every assignment to `all_notifiers` takes its value from, and the")
+    L.append("list every `PyObject_Call` of the function reads its callable from. -/")
+    L.append("def callNotifiersListSources : List String := %s" % lean_strs(cn_sources))
+    L.append("def callNotifiersLoopReads : List String := %s" % lean_strs(cn_reads))
     L.append("")
     L.append("/-! `#define` constants. -/")
     L.append("def constants : List (String × Nat) := [")
